@@ -92,6 +92,7 @@ type Interp struct {
 	now         *smt.Term // frozen clock: symbolic instant + harness-controlled advances
 	timerBudget int
 
+	uniques    []uniqueEntry
 	freshTerms []*smt.Term
 	stubs      map[string]Value
 	tmpDefined map[string]bool
